@@ -84,6 +84,14 @@ CLAIMED.update({
             "§3 C10"),
 })
 
+CLAIMED.update({
+    "C06": ("model_checking",
+            "explicit-state BFS to fixpoint over the global factorial memo (state = memo contents, every Factorial/Binomial_Coefficient letter applied in every reachable state, oracle = fresh memo) plus complete grids against two mutually checking long-double references (positive series and Lentz continued fraction)",
+            "The memo makes Factorial/Binomial_Coefficient a function of the call history; all 171 reachable memo states are visited and all 315 letters executed in each, so 'every call order' is decided, not sampled. Binomial_Coefficient is checked for all 0<=k<=n<=400 (Pascal, symmetry, exact integer where the rounding bound allows), GammaLn/Gamma on 2001 points within 16u in the logarithm, P and Q on an (a,x) grid dense around x=a+1 and a=100 (range, P+Q=1, monotone in x, 1e-12 / 1e-3 against the reference, Upper+Lower=Gamma), and the inverses on 60 probabilities for every a of the grid.",
+            "Grid, not continuum: a on 47 (quick) / 407 (thorough) values of (1e-3,1e4], x on 200 / 2000 points per a plus the switch-over neighbourhoods. Inverse cases whose solution lies below the normal double range (tiny a, small p) are excluded and counted. The two reference methods must agree (count of unresolved points is reported and is 0).",
+            "§3 C06"),
+})
+
 NOT_APPLICABLE = {
 }
 
